@@ -60,6 +60,12 @@ pub open spec fn f_in_pool_cost() -> spec_fn(AcquisitionLot) -> real { |l: Acqui
 pub open spec fn avail_on(s: Seq<AcquisitionLot>, date: int) -> real { rsum(s, f_avail_on(date)) }
 pub open spec fn pos_avail_on(s: Seq<AcquisitionLot>, date: int) -> real { rsum(s, f_pos_avail_on(date)) }
 
+// same-day identification, as functions of the ledger before the call only (no executable local is named)
+pub open spec fn sd_t(lots: Seq<AcquisitionLot>, date: NaiveDate) -> real { avail_on(lots, date.d()) }
+pub open spec fn sd_m(lots: Seq<AcquisitionLot>, date: NaiveDate, amount: Decimal) -> real { if amount.v() <= sd_t(lots, date) { amount.v() } else { sd_t(lots, date) } }
+pub open spec fn sd_rho(lots: Seq<AcquisitionLot>, date: NaiveDate, amount: Decimal) -> real { sd_m(lots, date, amount) / sd_t(lots, date) }
+
+
 /// under wf, counting only positive availability is the same as counting all of it
 pub proof fn lemma_pos_avail_eq(s: Seq<AcquisitionLot>, date: int)
     requires wf_lots(s)
@@ -116,6 +122,41 @@ pub proof fn lemma_mi_take_step(s: Seq<AcquisitionLot>, i: int, d: int)
 pub open spec fn f_p1() -> spec_fn((usize, Decimal)) -> real { |p: (usize, Decimal)| p.1.v() }
 pub open spec fn lod_idx(lod: Seq<(usize, Decimal)>) -> Seq<int> { lod.map(|j: int, p: (usize, Decimal)| p.0 as int) }
 
+
+// one step of the pro-rata same-day consumption: everything the loop body needs, in terms of the old ledger only
+pub proof fn lemma_sd_step(lod: Seq<(usize, Decimal)>, p: int, o: Seq<AcquisitionLot>, date: NaiveDate, amount: Decimal)
+    requires
+        0 <= p < lod.len(), wf_lots(o), lod_idx(lod) == mi(o, date.d()),
+        forall|j: int| 0 <= j < lod.len() ==> 0 <= (#[trigger] lod[j]).0 < o.len() && lod[j].1.v() == lot_avail(o[lod[j].0 as int]),
+        sd_t(o, date) > 0real, 0real < sd_m(o, date, amount) <= sd_t(o, date),
+    ensures ({
+        let rho = sd_rho(o, date, amount); let a = lod[p].1.v(); let rest = rsum(lod.skip(p + 1), f_p1());
+        &&& rsum(lod.skip(p), f_p1()) == a + rest
+        &&& rest >= 0real && a > 0real && 0real < rho <= 1real
+        &&& rho * (a + rest) == rho * a + rho * rest
+        &&& a * rho == rho * a && rho * rest >= 0real && rho * a <= a && rho * a > 0real
+        &&& (p + 1 == lod.len() ==> rho * rest == 0real)
+        &&& lot_matching(o[lod[p].0 as int], date.d())
+    }),
+{
+    let rho = sd_rho(o, date, amount); let a = lod[p].1.v(); let d = date.d(); let t = sd_t(o, date); let m = sd_m(o, date, amount);
+    lemma_mi(o, d);
+    assert(lod_idx(lod)[p] == lod[p].0 as int);
+    assert(lot_matching(o[lod[p].0 as int], d));
+    rsum_skip_step(lod, p, f_p1());
+    let rest = rsum(lod.skip(p + 1), f_p1());
+    assert forall|q: int| 0 <= q < lod.skip(p + 1).len() implies f_p1()(#[trigger] lod.skip(p + 1)[q]) >= 0real by {
+        let jj = p + 1 + q; assert(lod_idx(lod)[jj] == lod[jj].0 as int); assert(lot_matching(o[lod[jj].0 as int], d));
+    }
+    rsum_nonneg(lod.skip(p + 1), f_p1());
+    assert(0real < rho <= 1real) by(nonlinear_arith) requires rho == m / t, 0real < m <= t;
+    assert(rho * (a + rest) == rho * a + rho * rest) by(nonlinear_arith);
+    assert(a * rho == rho * a) by(nonlinear_arith);
+    assert(rho * rest >= 0real) by(nonlinear_arith) requires rho > 0real, rest >= 0real;
+    assert(rho * a <= a) by(nonlinear_arith) requires rho <= 1real, a > 0real;
+    assert(rho * a > 0real) by(nonlinear_arith) requires rho > 0real, a > 0real;
+    if p + 1 == lod.len() { assert(lod.skip(p + 1) =~= Seq::<(usize, Decimal)>::empty()); assert(rho * 0real == 0real) by(nonlinear_arith); }
+}
 
 // ---------- transactions ----------
 pub open spec fn is_sell(tx: GbpTransaction) -> bool { tx.operation is Sell }
